@@ -174,6 +174,14 @@ def run(crate, harnesses, timeout=1800, jobs=8, extra=None, log=None, mem_gb=Non
     else:
         full = cmd
     import signal
+    import fcntl
+    # one cargo-kani at a time per target directory: two concurrent checks of DIFFERENT trees (seed matrix, a user
+    # running two properties side by side) would otherwise mix their goto binaries in the shared target directory
+    # (observed: a string harness "failing" on a tree whose strings were untouched). The wait is not charged to the timeout.
+    os.makedirs(TARGET, exist_ok=True)
+    lock_fh = open(TARGET + ".lock", "w")
+    fcntl.flock(lock_fh, fcntl.LOCK_EX)
+    t0 = time.time()
     proc = subprocess.Popen(full, cwd=crate, env=env, stdout=subprocess.PIPE, stderr=subprocess.STDOUT,
                             text=True, start_new_session=True)
     try:
@@ -188,6 +196,11 @@ def run(crate, harnesses, timeout=1800, jobs=8, extra=None, log=None, mem_gb=Non
         out = (out or "") + "\n[verif] cargo kani timed out after %ds\n" % timeout
         rc = -9
     wall = time.time() - t0
+    try:
+        fcntl.flock(lock_fh, fcntl.LOCK_UN)
+        lock_fh.close()
+    except Exception:
+        pass
     if log:
         with open(log, "w") as fh:
             fh.write(" ".join(cmd) + "\n" + out)
